@@ -1404,6 +1404,17 @@ func (env *specEnv) call(x *ast.CallExpr) (T, error) {
 							sub.pkg = pk.Types
 							return sub.call(&ast.CallExpr{Fun: ast.NewIdent(fn.Sel.Name), Args: x.Args})
 						}
+						// pkg.T(x): conversion to a named type of another package with the same representation
+						if tn, ok := pk.Types.Scope().Lookup(fn.Sel.Name).(*types.TypeName); ok && len(x.Args) == 1 {
+							a, err := env.eval(x.Args[0])
+							if err != nil {
+								return T{}, err
+							}
+							if a.Go != nil && e.sortOf(a.Go) == e.sortOf(tn.Type()) {
+								return T{a.S, a.Sort, tn.Type()}, nil
+							}
+							return T{}, fmt.Errorf("unsupported conversion to %s.%s", id.Name, fn.Sel.Name)
+						}
 					}
 				}
 			}
